@@ -93,6 +93,47 @@ def h_alias(ctx, opn, form, shape, D, P):
         ctx.eq(plain(x.data), X, 'operand unchanged')
 
 
+def h_alias_views(ctx, opn, form, D, P):
+    """both operands are views of ONE larger polynomial (a row of a matrix and its reversal, two
+    overlapping windows of a vector, a reshaped buffer): x op= view equals x op= independent copy,
+    and the rest of the parent is untouched"""
+    algopy = symx.load_algopy()
+    dom = 'nonzero' if opn == 'div' else 'any'
+    if form == 'row op= row[::-1]':
+        B = O.make_input(ctx, O.Arg('utpm', (2, 3), dom), 'b', D, P)
+        def pick(b):
+            r = b[1]
+            return r, r[::-1]
+    elif form == 'window op= overlapping window':
+        B = O.make_input(ctx, O.Arg('utpm', (4,), dom), 'b', D, P)
+        def pick(b):
+            return b[0:3], b[1:4]
+    elif form == 'column op= other column':
+        B = O.make_input(ctx, O.Arg('utpm', (2, 2), dom), 'b', D, P)
+        def pick(b):
+            return b[:, 0], b[:, 1]
+    elif form == 'reshaped op= its transpose':
+        B = O.make_input(ctx, O.Arg('utpm', (4,), dom), 'b', D, P)
+        def pick(b):
+            m = b.reshape((2, 2))
+            return m, m.T
+    else:
+        raise KeyError(form)
+    b1 = mk_utpm(ctx, algopy, B)
+    b2 = mk_utpm(ctx, algopy, B)
+    l1, r1 = pick(b1)
+    l2, r2 = pick(b2)
+    r2 = r2.copy()
+    ctx.fact(bool(np.shares_memory(l1.data, b1.data)), 'the left operand is a view of the parent')
+    try:
+        l1 = IBIN[opn](l1, r1)
+    except Exception as e:
+        ctx.fact(False, '%s (%s) raised %s: %s' % (form, opn, type(e).__name__, str(e)[:100]))
+        return
+    l2 = IBIN[opn](l2, r2)
+    ctx.eq(plain(b1.data), plain(b2.data), '%s with %s: parent after the aliased update == after the update with an independent copy' % (form, opn))
+
+
 def h_pow_alias(ctx, D, P):
     algopy = symx.load_algopy()
     X = O.make_input(ctx, O.Arg('utpm', (2,), 'pos'), 'x', D, P)
@@ -204,6 +245,9 @@ def units(tier, seed):
                           ('x op= x', (2,)), ('x op= x', (2, 2)), ('x op= x[::-1]', (3,)), ('x op= x.T', (2, 2)),
                           ('x op= x[0:1]', (2, 2)), ('x op= x[0]', (2, 2))]:
             add('alias/%s/%s/%s' % (form, opn, shp), 'h_alias', opn=opn, form=form, shape=shp, D=D, P=P)
+    for opn in BIN:
+        for form in ('row op= row[::-1]', 'window op= overlapping window', 'column op= other column', 'reshaped op= its transpose'):
+            add('alias/views of one parent/%s/%s' % (form, opn), 'h_alias_views', opn=opn, form=form, D=3, P=2)
     add('alias/pow,dot,outer', 'h_pow_alias', D=D, P=P)
     add('floordiv zero leading coefficients/D3,P1', 'h_floordiv', D=3, P=1)
     add('floordiv zero leading coefficient in one direction only/D3,P2', 'h_floordiv', D=3, P=2)
